@@ -60,8 +60,9 @@ def c18_a(ctx):
         ipos, ival = il.target.elts[0].id, il.target.elts[1].id
         apps = [c for c in ast.walk(il) if isinstance(c, ast.Call) and callee_name(c) == 'append'
                 and isinstance(c.func.value, ast.Name) and c.func.value.id == lst]
-        const_app = [c for c in apps if ex.raw(c.args[0]) == ('name', ival)]
-        row_app = [c for c in apps if ex.raw(c.args[0]) ==
+        const_app = [c for c in apps if ex.raw1(c.args[0]) == ('name', ival) or
+                     ex.raw(c.args[0]) == ('name', ival)]
+        row_app = [c for c in apps if ex.raw1(c.args[0]) ==
                    ('sub', ('name', ival), ('name', idx))]
         okc = len(const_app) == 1 and any(
             pol and match(t, pattern('_i in _c')) is not None
